@@ -17,6 +17,13 @@ def main(unit_suffix, path, candidates_fn=None):
     reset_oids()
     E = interp.Engine(loader, [int(ch) for ch in path], contracts=reg.contracts, loops=dict(reg.loops), unit=c.target,
                       timeout_ms=3000, tables=reg.tables, inline=c.inline)
+    base = fn
+    from pyvc.modules import Wrapped, PropertyVal
+    if isinstance(base, PropertyVal):
+        base = base.fget
+    while isinstance(base, Wrapped):
+        base = base.func
+    E.inner_pending = getattr(base, "wraps", None)
     orig = E.prove
     state = {}
     def prove(name, cond, kind="code", detail=""):
